@@ -61,3 +61,14 @@ pub fn env_u64(name: &str, default: u64) -> u64 {
 pub fn workers() -> usize {
     env_u64("NUNMC_WORKERS", 0) as usize
 }
+
+/// the harness binary, for child processes (if the file was replaced by a rebuild while this
+/// process runs, the path the kernel reports carries a " (deleted)" suffix: use the new file)
+pub fn self_exe() -> std::path::PathBuf {
+    let p = std::env::current_exe().unwrap_or_else(|_| std::path::PathBuf::from("/verif/target/debug/nunmc"));
+    let s = p.to_string_lossy().to_string();
+    match s.strip_suffix(" (deleted)") {
+        Some(x) => std::path::PathBuf::from(x),
+        None => p,
+    }
+}
